@@ -386,7 +386,12 @@ def factor_cases(draw):
     src = A.join(left, right, 'inner', cond)
     select = [A.col('A', 'id'), A.col('B', 'id')]
     if three:
-        src = A.join(src, A.table('C'), 'inner', A.cmp('eq', A.col('C', 'b'), A.col('B', 'id')))
+        # the third table joins the A-B join - also as an outer join whose preserved side is that join, with an ON-clause
+        # conjunct restricting one of *its* tables
+        eq_cb = A.cmp('eq', A.col('C', 'b'), A.col('B', 'id'))
+        kind3 = draw(st.sampled_from(['inner', 'left', 'left', 'right']))
+        cond3 = A.and_(eq_cb, draw(_tree(pools[:3], 1))) if draw(st.booleans()) else eq_cb
+        src = A.join(A.table('C'), src, 'right', cond3) if kind3 == 'right' else A.join(src, A.table('C'), kind3, cond3)
         select.append(A.col('C', 'z'))
     pick = draw(st.integers(0, 9))
     where = None if pick == 0 else draw(_skeleton(leaves)) if pick <= 5 else draw(_tree(pools, 3))
